@@ -39,6 +39,12 @@ CHECKS = {
  "C19": ("evaluation of the literal upgrade/store configuration + exhaustiveness + definite-edge reachability from upgrade packages",
          "Every mounted store belongs to a module predating the first descriptor or is Added (and not later Deleted) by a registered descriptor; names distinct; handler and store-loader loops cover the whole Upgrades slice and run in New after manager/configurator; ConsensusVersion n has n-1 migrations; upgrade packages reach no aol/did/pnft store mutator.",
          "Trusts x/upgrade, store loader, RunMigrations; does not execute the upgrade block."),
+ "C16": ("abstract interpretation of validators (length interval × regular language) + exact regular-language equality (product automaton) against two oracles + propositional equivalence of ValidateBasic's accept condition with the documented constraints",
+         "For all 14 messages the accept condition of ValidateBasic is equivalent to the conjunction of the documented per-field limits (both directions), with field languages compared exactly against the property statement and the repository's own documents (aol.md Limits table, did.md ABNF); DIDDocument.Valid validates all five relationship lists, every method and service; method ids, key material, key type, contexts and services follow the specification; PNFT handlers re-run validation.",
+         "Trusts regexp/syntax, bech32 parsing, baseapp's ValidateBasic-before-handler sequencing; byte-vs-rune length compared as written."),
+ "C18": ("conversion-guard dominance + linear normal form of index arithmetic over SSA + writer/reader agreement per typed key + language analysis of the separator",
+         "Encoder: narrowing to one byte only under len<=255, one length byte then the whole value, index advances by 1+copied, buffer = sum(1+len). Decoder: accept iff idx+1+n<=len(bz) in linear normal form, copies bz[idx+1:idx+1+n], loop while idx<len. Typed keys: count/order/field binding agree between encode and decode (bytes and strings), address format and 8-byte width checked on decode. Separator outside every admitted alphabet. Injectivity/prefix-exactness follow on paper from these premises.",
+         "Trusts copy/append/strings.Split/strconv; nothing is executed."),
 }
 
 PENDING_REASON = "check not built yet in this round (planned per DESIGN.md section 4); no claim is made until the checker rule exists"
